@@ -306,7 +306,12 @@ func (e *Engine) sweep() {
 		kept := p.runs[:0] // 原地过滤：写 index ≤ 读 index，无删除时不分配
 		for _, r := range p.runs {
 			if r.startTs >= int64(1e9) && now-r.startTs > limit {
-				continue // 超窗的延伸中 run：丢弃
+				// 超窗的延伸中 run：丢弃；贪婪模式下已到达接受态的 run 转入 pending
+				// （下一事件或 Flush 时按最左最长输出），避免合法匹配随 run 丢失。
+				if !e.lazy && hasAccept(r.states) {
+					e.ingestPending(p, []*run{r})
+				}
+				continue
 			}
 			kept = append(kept, r)
 		}
@@ -378,7 +383,12 @@ func (e *Engine) step(p *partition, row map[string]any, ts, seq int64) []map[str
 	// 1. 推进现有 run（含未界完成：mr 不属于但 run 已可接受）。
 	for _, r := range p.runs {
 		if !e.withinOk(r, ts) || r.nrows > e.maxRunRows {
-			continue // 超期/超长：丢弃
+			// 超期/超长：不再延伸；但 run 已到达接受态时，它本身是一个在 WITHIN 内的合法匹配，
+			// 与「无后继」同样收尾，而不是连同已接受的匹配一起丢弃。
+			if hasAccept(r.states) {
+				completions = append(completions, r)
+			}
+			continue
 		}
 		succ := e.advance(r, row)
 		if hasAccept(r.states) && (len(succ) == 0 || !e.lazy) {
